@@ -77,6 +77,10 @@ KINDS = [
     ("I32c4", "Image", (7, 9), 4, "float32", None),
     ("I32c2", "Image", (7, 9), 2, "float32", None),
     ("U8c1", "Image", (7, 9), 1, "uint8", None),
+    # the same ramps at other pixel magnitudes (values ~1e-10 and ~1e7): nothing in the property depends on the unit
+    ("I64c2-tiny", "Image", (7, 9), 2, "float64", None),
+    ("I64c2-huge", "Image", (7, 9), 2, "float64", None),
+    ("Msparse-tiny", "MaskedImage", (7, 9), 1, "float64", "sparse"),
     ("Mall", "MaskedImage", (7, 9), 1, "float64", "all"),
     ("Msparse", "MaskedImage", (7, 9), 2, "float64", "sparse"),
     ("B", "BooleanImage", (7, 9), 1, "bool", None),
@@ -144,6 +148,10 @@ class C01(Check):
             im = BooleanImage(bool_pattern(shape, self.seed))
         else:
             px = ramp(shape, c).astype(dtype)
+            if name.endswith("-tiny"):
+                px = px * 1e-10
+            elif name.endswith("-huge"):
+                px = px * 1e7
             if cls == "Image":
                 im = Image(px)
             else:
@@ -175,7 +183,7 @@ class C01(Check):
 
     def canon(self, st):
         o = observe(st["img"])
-        return (st["root"][0], obs_key(o, decimals=6))
+        return (st["root"][0], obs_key(o, decimals=17 if st["root"][0].endswith("-tiny") else 6))
 
     # ------------------------------------------------------------------ alphabet
     def _letters_2d(self, st, reduced):
@@ -597,17 +605,20 @@ class C01(Check):
         if isinstance(res, MaskedImage) and not is_wtm:
             consider &= res.mask.pixels.reshape(-1)
         self.note("pixels-compared", int(consider.sum()))
+        # tolerances are relative to the magnitude of the SOURCE pixels (images of values ~1e-10 or ~1e7 are legal)
+        mag = float(np.abs(src_px.astype(float)).max()) if src_px.dtype.kind == "f" and src_px.size else 1.0
+        mag = mag if mag > 0 else 1.0
         if consider.any():
             g = got[:, consider].astype(float)
             e = exp[:, consider].astype(float)
             if src_px.dtype == np.uint8:
                 tol = 1.0 + 1e-9
             elif src_px.dtype == np.float32:
-                tol = 2e-4 * max(1.0, np.abs(e).max())
+                tol = 2e-4 * mag
             elif src_px.dtype == bool:
                 tol = 0
             else:
-                tol = 1e-9 * max(1.0, np.abs(e).max())
+                tol = 1e-9 * mag
             err = np.abs(g - e)
             if err.max() > tol:
                 j = int(np.argmax(err.max(axis=0)))
@@ -638,7 +649,7 @@ class C01(Check):
                 e2, v2 = (ref_nearest if order == 0 else ref_linear)(src_px, clipped)
                 if v2.any():
                     g2 = got[:, sel_px][:, v2].astype(float)
-                    tol2 = 1.0 + 1e-9 if src_px.dtype == np.uint8 else (0 if src_px.dtype == bool else (2e-4 if src_px.dtype == np.float32 else 1e-9) * max(1.0, np.abs(e2).max()))
+                    tol2 = 1.0 + 1e-9 if src_px.dtype == np.uint8 else (0 if src_px.dtype == bool else (2e-4 if src_px.dtype == np.float32 else 1e-9) * mag)
                     if np.abs(g2 - e2[:, v2].astype(float)).max() > tol2:
                         fails.append(Failure(where, "outside-not-edge-replicated", "%s %r: pixels mapping outside the source are not the replicated edge (max err %.3g)" % (cls, op, np.abs(g2 - e2[:, v2].astype(float)).max())))
         # (d) mask carried by the same mapping
@@ -714,7 +725,7 @@ class C01(Check):
                 continue
             s_res = res.sample(lp[sup_ok])
             s_src = img.sample(a.points[sup_ok])
-            tols = 1.0 + 1e-9 if src_px.dtype == np.uint8 else (5e-4 if src_px.dtype == np.float32 else 1e-8) * max(1.0, np.abs(s_src).max())
+            tols = 1.0 + 1e-9 if src_px.dtype == np.uint8 else (5e-4 if src_px.dtype == np.float32 else 1e-8) * mag
             self.note("samples-compared", int(sup_ok.sum()))
             if affine_like(T) and np.abs(np.asarray(s_res, dtype=float) - np.asarray(s_src, dtype=float)).max() > tols:
                 fails.append(Failure(where, "sample-at-landmark", "%s %r group %s: result sampled at the returned landmarks differs from the source sampled at the original landmarks by %.3g" % (cls, op, g, np.abs(np.asarray(s_res, dtype=float) - np.asarray(s_src, dtype=float)).max())))
